@@ -1,4 +1,297 @@
-import Autobean.Model.Store
+/-
+C07 — the blocked token store behaves exactly like a plain ordered sequence.
+
+Everything is stated for the model `Autobean/Model/Store.lean` (a transcription of
+`autobean_refactor/token_store.py`), for ALL load factors `c.WF` (`lf ≥ 2`, `dbl = 2·lf`,
+`half = lf/2`, `onehalf = lf + half`) and all operation histories.  The abstraction function is
+`Store.cores` (the tokens' identities and texts in order); `SInv` is the structural invariant and
+`CInv` the cache invariant (both in `Proofs/StoreDefs.lean`).  The proofs are in `Proofs/Store*.lean`.
+-/
+import Autobean.Proofs.StoreQueries
+import Autobean.Proofs.StoreHistory
+import Autobean.Proofs.StoreDemo
+
 namespace Autobean.C07
-theorem placeholder_true : True := trivial
+open Autobean
+
+/-! ### `Position` and `_token_size` -/
+
+/-- `Position.__add__` is associative. -/
+theorem pos_add_assoc (a b c : Pos) : a + b + c = a + (b + c) := Pos.add_assoc a b c
+
+/-- `Position()` is a left unit of `Position.__add__`. -/
+theorem pos_zero_add (a : Pos) : Pos.zero + a = a := Pos.zero_add a
+
+/-- `Position()` is a right unit of `Position.__add__`. -/
+theorem pos_add_zero (a : Pos) : a + Pos.zero = a := Pos.add_zero a
+
+/-- `_token_size` of a concatenated text is the `Position` sum of the two sizes. -/
+theorem tokSize_append (a b : List Char) : tokSize (a ++ b) = tokSize a + tokSize b :=
+  Autobean.tokSize_append a b
+
+/-! ### `_build_blocks` and `from_tokens` -/
+
+/-- `_build_blocks` (well-formed constants): flattening the built blocks gives the input back (same
+identities and texts; only the handles were assigned), no block is empty, the stored indexes are
+`idx, idx+1, …`, the new block objects are `ref, ref+1, …`, every block has correct handles and a
+correct cached size / last-newline index, and a non-empty input gives at least one block. -/
+theorem buildBlocks_refines {c : LF} (hc : c.WF) (sid ref idx : Nat) (ts : List Tok) :
+    ((buildBlocks c sid ref idx ts).flatMap (·.toks)).map Tok.core = ts.map Tok.core ∧
+    (∀ b ∈ buildBlocks c sid ref idx ts, b.toks ≠ []) ∧
+    (buildBlocks c sid ref idx ts).map (·.idx) = List.range' idx (buildBlocks c sid ref idx ts).length ∧
+    (buildBlocks c sid ref idx ts).map (·.ref) = List.range' ref (buildBlocks c sid ref idx ts).length ∧
+    (∀ b ∈ buildBlocks c sid ref idx ts, BOK sid b) ∧
+    (ts ≠ [] → buildBlocks c sid ref idx ts ≠ []) :=
+  ⟨map_core_of_strip (buildBlocks_strip c sid ref idx ts), buildBlocks_noEmpty hc sid ref idx ts,
+    buildBlocks_idx c sid ref idx ts, buildBlocks_refs c sid ref idx ts, buildBlocks_bok c sid ref idx ts,
+    buildBlocks_ne_nil c sid ref idx⟩
+
+/-- `TokenStore.from_tokens` on detached, correctly sized, pairwise distinct tokens succeeds, the
+result satisfies both invariants and reads back as the given list. -/
+theorem fromTokens_refines {c : LF} (hc : c.WF) (sid : Nat) {ts : List Tok} (hf : FreshToks ts) :
+    ∃ s, Store.fromTokens c sid ts = .ok s ∧ SInv s ∧ CInv s ∧ s.cores = ts.map Tok.core := by
+  obtain ⟨s, h1, h2, _, h4⟩ := fromTokens_inv hc sid hf
+  exact ⟨s, h1, h2.sinv, h2.cinv, map_core_of_strip h4⟩
+
+/-! ### `_splice` -/
+
+/-- The heart of C07: `_splice(tokens, (si,sj), (ei,ej))` on a store satisfying the invariants, between
+two valid positions, with fresh tokens, succeeds on every path (same-block fast path, same-block
+`_update_block` with split / merge with previous / merge with next / re-split / plain rebuild, and
+the multi-block path); the result satisfies both invariants and is the plain-list slice assignment
+`l[i:j] = tokens` where `i, j` are the flat indexes of the two positions; the removed tokens are
+exactly `l[i:j]` and they are detached.
+
+Side condition (stated explicitly, stronger than "flat index `i ≤ j`"): the positions must be in
+*lexicographic* order, `si < ei ∨ (si = ei ∧ sj ≤ ej)`.  Flat order is not enough: `(p+1, 0)` and
+`(p, len(block p))` denote the same flat index, but `_splice((p+1,0), (p,len))` takes the multi-block
+branch with `start_i > end_i` and does not behave like a list (see `splice_needs_lex_order` below).
+Lexicographic order implies `i ≤ j` (last conjunct), and every position pair the public interface
+produces from `ref` not after `del_end` is in lexicographic order (`lex_of_flat_order`). -/
+theorem spliceCore_refines {c : LF} (hc : c.WF) {s : Store} (hS : SInv s) (hC : CInv s)
+    {si sj ei ej : Nat} (hsi : si < s.blocks.length) (hei : ei < s.blocks.length)
+    (hsj : sj ≤ (s.blocks[si]).toks.length) (hej : ej ≤ (s.blocks[ei]).toks.length)
+    (hle : si < ei ∨ (si = ei ∧ sj ≤ ej)) {ts : List Tok} (hf : Fresh s ts) :
+    ∃ out, spliceCore c s ts (si, sj) (ei, ej) = .ok out ∧ SInv out.store ∧ CInv out.store ∧
+      out.store.cores = s.cores.take (flatIdx s.blocks si sj) ++ ts.map Tok.core ++
+        s.cores.drop (flatIdx s.blocks ei ej) ∧
+      out.removed.map Tok.core = (s.cores.drop (flatIdx s.blocks si sj)).take
+        (flatIdx s.blocks ei ej - flatIdx s.blocks si sj) ∧
+      (∀ t ∈ out.removed, t.h = none) ∧
+      flatIdx s.blocks si sj ≤ flatIdx s.blocks ei ej := by
+  obtain ⟨out, h1, h2⟩ := spliceSpec_of_vpos hc (inv_of hS hC) (i := flatIdx s.blocks si sj)
+    (j := flatIdx s.blocks ei ej) ⟨hsi, hsj, rfl⟩ ⟨hei, hej, rfl⟩ hle hf
+  exact ⟨out, h1, h2.inv.sinv, h2.inv.cinv, h2.cores, h2.removed_cores, h2.removed_detached, h2.le⟩
+
+/-- For two *token* positions, flat order implies lexicographic order (so the side condition of
+`spliceCore_refines` is met whenever `ref` is not after `del_end`). -/
+theorem lex_of_flat_order {bs : List Block} {p j p' j' : Nat} (hp' : p' < bs.length)
+    (hj' : j' < (bs[p']).toks.length) (h : flatIdx bs p j ≤ flatIdx bs p' j') :
+    p < p' ∨ (p = p' ∧ j ≤ j') := lex_of_flat hp' hj' h
+
+/-- A token carrying a handle of another store makes `_splice` raise "Token already in a store"
+(all inserted tokens being detached or foreign); the model is pure, so the store is untouched. -/
+theorem spliceCore_rejects_foreign (c : LF) (s : Store) (ts : List Tok) (start stop : Nat × Nat)
+    (hall : ∀ t ∈ ts, t.h = none ∨ ∃ hd, t.h = some hd ∧ hd.sid ≠ s.sid)
+    (hex : ∃ t ∈ ts, ∃ hd, t.h = some hd ∧ hd.sid ≠ s.sid) :
+    spliceCore c s ts start stop = .error "ValueError:already-in-store" :=
+  spliceCore_foreign c s ts start stop hall hex
+
+/-! ### Public mutators, addressed by token identity -/
+
+/-- `splice(tokens, ref, del_end)` is `l[i:j] = tokens` with `i` the index of `ref` (0 for `None`) and
+`j` one past the index of `del_end` (`j = i` for `None`), provided the references are in the store and
+`del_end` is not before `ref`. -/
+theorem splice_refines {c : LF} (hc : c.WF) {s : Store} (hS : SInv s) (hC : CInv s) {ts : List Tok}
+    (hf : Fresh s ts) {ref delEnd : Option Nat}
+    (href : ∀ r, ref = some r → r ∈ s.ids) (hend : ∀ e, delEnd = some e → e ∈ s.ids)
+    (hord : ∀ r e, ref = some r → delEnd = some e → s.ids.idxOf r ≤ s.ids.idxOf e) :
+    ∃ out, s.splice c ts ref delEnd = .ok out ∧ SInv out.store ∧ CInv out.store ∧
+      out.store.cores = s.cores.take (refIdx s.ids ref) ++ ts.map Tok.core ++
+        s.cores.drop (endIdx s.ids (refIdx s.ids ref) delEnd) ∧
+      out.removed.map Tok.core = (s.cores.drop (refIdx s.ids ref)).take
+        (endIdx s.ids (refIdx s.ids ref) delEnd - refIdx s.ids ref) ∧
+      (∀ t ∈ out.removed, t.h = none) := by
+  obtain ⟨out, h1, h2⟩ := splice_spec hc (inv_of hS hC) hf href hend hord
+  exact ⟨out, h1, h2.inv.sinv, h2.inv.cinv, h2.cores, h2.removed_cores, h2.removed_detached⟩
+
+/-- `insert_after(ref, tokens)` is `l[k+1:k+1] = tokens` (`l[0:0] = tokens` for `None`). -/
+theorem insertAfter_refines {c : LF} (hc : c.WF) {s : Store} (hS : SInv s) (hC : CInv s) {ts : List Tok}
+    (hf : Fresh s ts) {ref : Option Nat} (href : ∀ r, ref = some r → r ∈ s.ids) :
+    ∃ out, s.insertAfter c ref ts = .ok out ∧ SInv out.store ∧ CInv out.store ∧
+      out.store.cores = s.cores.take (afterIdx s.ids ref) ++ ts.map Tok.core ++
+        s.cores.drop (afterIdx s.ids ref) ∧ out.removed = [] := by
+  obtain ⟨out, h1, h2⟩ := insertAfter_spec hc (inv_of hS hC) hf href
+  exact ⟨out, h1, h2.inv.sinv, h2.inv.cinv, h2.cores, by simp [h2.removed]⟩
+
+/-- `insert_before(ref, tokens)` is `l[k:k] = tokens` (`l[0:0] = tokens` for `None`). -/
+theorem insertBefore_refines {c : LF} (hc : c.WF) {s : Store} (hS : SInv s) (hC : CInv s) {ts : List Tok}
+    (hf : Fresh s ts) {ref : Option Nat} (href : ∀ r, ref = some r → r ∈ s.ids) :
+    ∃ out, s.insertBefore c ref ts = .ok out ∧ SInv out.store ∧ CInv out.store ∧
+      out.store.cores = s.cores.take (refIdx s.ids ref) ++ ts.map Tok.core ++
+        s.cores.drop (refIdx s.ids ref) ∧ out.removed = [] := by
+  obtain ⟨out, h1, h2⟩ := insertBefore_spec hc (inv_of hS hC) hf href
+  exact ⟨out, h1, h2.inv.sinv, h2.inv.cinv, h2.cores, by simp [h2.removed]⟩
+
+/-- `replace(token, repl)` is `l[k:k+1] = [repl]`; the replaced token comes out detached. -/
+theorem replace_refines {c : LF} (hc : c.WF) {s : Store} (hS : SInv s) (hC : CInv s) {tok : Nat}
+    {repl : Tok} (hf : Fresh s [repl]) (htok : tok ∈ s.ids) :
+    ∃ out, s.replace c tok repl = .ok out ∧ SInv out.store ∧ CInv out.store ∧
+      out.store.cores = s.cores.take (s.ids.idxOf tok) ++ [repl.core] ++ s.cores.drop (s.ids.idxOf tok + 1) ∧
+      out.removed.map Tok.core = (s.cores.drop (s.ids.idxOf tok)).take 1 ∧
+      (∀ t ∈ out.removed, t.h = none) := by
+  obtain ⟨out, h1, h2⟩ := replace_spec hc (inv_of hS hC) hf htok
+  refine ⟨out, h1, h2.inv.sinv, h2.inv.cinv, by simpa using h2.cores, ?_, h2.removed_detached⟩
+  simpa using h2.removed_cores
+
+/-- `remove(start, end)` is `del l[k1:k2+1]` (`end` defaults to `start`), provided `end` is not
+before `start`. -/
+theorem remove_refines {c : LF} (hc : c.WF) {s : Store} (hS : SInv s) (hC : CInv s) {start : Nat}
+    {stop : Option Nat} (hstart : start ∈ s.ids) (hstop : stop.getD start ∈ s.ids)
+    (hord : s.ids.idxOf start ≤ s.ids.idxOf (stop.getD start)) :
+    ∃ out, s.remove c start stop = .ok out ∧ SInv out.store ∧ CInv out.store ∧
+      out.store.cores = s.cores.take (s.ids.idxOf start) ++ s.cores.drop (s.ids.idxOf (stop.getD start) + 1) ∧
+      out.removed.map Tok.core = (s.cores.drop (s.ids.idxOf start)).take
+        (s.ids.idxOf (stop.getD start) + 1 - s.ids.idxOf start) ∧
+      (∀ t ∈ out.removed, t.h = none) := by
+  obtain ⟨out, h1, h2⟩ := remove_spec hc (inv_of hS hC) hstart hstop hord
+  exact ⟨out, h1, h2.inv.sinv, h2.inv.cinv, by simpa using h2.cores, h2.removed_cores, h2.removed_detached⟩
+
+/-! ### Queries -/
+
+/-- `len(store)` is the length of the list. -/
+theorem len_eq {s : Store} (hS : SInv s) : s.len = s.ids.length := by
+  rw [hS.len]; simp [Store.ids]
+
+/-- `get_index(token)` is the position of the token in the list. -/
+theorem getIndex_eq {s : Store} (hS : SInv s) (hC : CInv s) {id : Nat} (h : id ∈ s.ids) :
+    s.getIndex id = .ok (s.ids.idxOf id) := Autobean.getIndex_eq (inv_of hS hC) h
+
+/-- `get_prev(token)` is the left neighbour in the list, `None` at the front. -/
+theorem getPrev_eq {s : Store} (hS : SInv s) (hC : CInv s) {id : Nat} (h : id ∈ s.ids) :
+    s.getPrev id = .ok (if s.ids.idxOf id = 0 then none else s.ids[s.ids.idxOf id - 1]?) :=
+  Autobean.getPrev_eq (inv_of hS hC) h
+
+/-- `get_next(token)` is the right neighbour in the list, `None` at the end. -/
+theorem getNext_eq {s : Store} (hS : SInv s) (hC : CInv s) {id : Nat} (h : id ∈ s.ids) :
+    s.getNext id = .ok (s.ids[s.ids.idxOf id + 1]?) := Autobean.getNext_eq (inv_of hS hC) h
+
+/-- `get_first()` is the head of the list (`None` when empty). -/
+theorem getFirst_eq {s : Store} (hS : SInv s) (hC : CInv s) : s.getFirst = s.ids.head? :=
+  Autobean.getFirst_eq (inv_of hS hC)
+
+/-- `get_last()` is the last element of the list (`None` when empty). -/
+theorem getLast_eq {s : Store} (hS : SInv s) (hC : CInv s) : s.getLast = .ok s.ids.getLast? :=
+  Autobean.getLast_eq (inv_of hS hC)
+
+/-- `iter(a, b)` is the contiguous sub-list from `a` to `b` inclusive when `a` is not after `b`. -/
+theorem iter_eq {s : Store} (hS : SInv s) (hC : CInv s) {a b : Nat} (ha : a ∈ s.ids) (hb : b ∈ s.ids)
+    (hab : s.ids.idxOf a ≤ s.ids.idxOf b) :
+    s.iter a b = .ok ((s.ids.drop (s.ids.idxOf a)).take (s.ids.idxOf b + 1 - s.ids.idxOf a)) :=
+  Autobean.iter_eq (inv_of hS hC) ha hb hab
+
+/-- A token that is not in the store: `get_index` raises "Token is not in a store". -/
+theorem getIndex_rejects_unknown {s : Store} {id : Nat} (h : id ∉ s.ids) :
+    s.getIndex id = .error "ValueError:not-in-store" := getIndex_not_mem h
+
+/-! ### `Token._update_raw_text` (also the core of C02) -/
+
+/-- Changing the text of a token of the store keeps both invariants, keeps all identities and their
+order, and changes exactly the one entry of the list. -/
+theorem updateText_refines {s : Store} (hS : SInv s) (hC : CInv s) {id : Nat} (h : id ∈ s.ids)
+    (txt : List Char) :
+    ∃ s', Store.updateText s id txt = .ok s' ∧ SInv s' ∧ CInv s' ∧ s'.ids = s.ids ∧
+      s'.cores = s.cores.set (s.ids.idxOf id) (id, txt) ∧
+      s'.cores = s.cores.map (fun c => if c.1 = id then (id, txt) else c) := by
+  obtain ⟨s', h1, h2, _, h4, h5, h6⟩ := updateText_inv (inv_of hS hC) h txt
+  exact ⟨s', h1, h2.sinv, h2.cinv, h4, h5, h6⟩
+
+/-! ### Histories -/
+
+/-- One operation (`Op`: splice / insert_after / insert_before / replace / remove / text update) that
+is well-formed with respect to the plain list (references present, end not before the reference,
+inserted tokens fresh) succeeds on the store, keeps the invariants and commutes with the abstraction. -/
+theorem step_refines {c : LF} (hc : c.WF) {s : Store} (hS : SInv s) (hC : CInv s) (op : Op)
+    (hwf : op.WF s.cores) :
+    ∃ s', op.run c s = .ok s' ∧ SInv s' ∧ CInv s' ∧ s'.cores = op.abs s.cores := by
+  obtain ⟨s', h1, h2, _, h4⟩ := Autobean.step_refines hc (inv_of hS hC) op hwf
+  exact ⟨s', h1, h2.sinv, h2.cinv, h4⟩
+
+/-- Refinement of whole histories: start the blocked store and a plain list from the same fresh
+tokens, apply the same well-formed operations to both (`conRun` / `absRun`): the concrete run never
+raises, ends in a store satisfying both invariants, and the store reads back as the plain list. -/
+theorem refines_history {c : LF} (hc : c.WF) (sid : Nat) {ts0 : List Tok} (hf : FreshToks ts0)
+    (ops : List Op) (hwf : WFHist ops (ts0.map Tok.core)) :
+    ∃ s0 s, Store.fromTokens c sid ts0 = .ok s0 ∧ conRun c ops s0 = .ok s ∧ SInv s ∧ CInv s ∧
+      s.cores = absRun ops (ts0.map Tok.core) := by
+  obtain ⟨s0, h1, h2, _, h4⟩ := fromTokens_inv hc sid hf
+  have hc0 : s0.cores = ts0.map Tok.core := map_core_of_strip h4
+  obtain ⟨s, g1, g2, _, g4⟩ := run_refines hc ops h2 (by rw [hc0]; exact hwf)
+  exact ⟨s0, s, h1, g1, g2.sinv, g2.cinv, by rw [g4, hc0]⟩
+
+/-- … and they agree after *every* step: the statement holds for each prefix of the history. -/
+theorem refines_history_every_step {c : LF} (hc : c.WF) (sid : Nat) {ts0 : List Tok} (hf : FreshToks ts0)
+    (ops : List Op) (hwf : WFHist ops (ts0.map Tok.core)) (n : Nat) :
+    ∃ s0 s, Store.fromTokens c sid ts0 = .ok s0 ∧ conRun c (ops.take n) s0 = .ok s ∧ SInv s ∧ CInv s ∧
+      s.cores = absRun (ops.take n) (ts0.map Tok.core) :=
+  refines_history hc sid hf (ops.take n) (wfHist_take ops _ n hwf)
+
+/-! ### The hypotheses are satisfiable: a concrete four-block store -/
+
+open Autobean.Demo
+
+/-- Load factor 2 is well-formed. -/
+example : c2.WF := by decide
+
+/-- `from_tokens` of seven fresh tokens at load factor 2 gives the four-block store `demoStore`. -/
+example : Store.fromTokens c2 1 demoToks = .ok demoStore := demo_fromTokens
+example : FreshToks demoToks := demoToks_fresh
+example : demoStore.blocks.map (·.toks.length) = [2, 2, 1, 2] := by decide
+
+/-- … which satisfies both invariants. -/
+example : SInv demoStore ∧ CInv demoStore := ⟨demo_inv.sinv, demo_inv.cinv⟩
+
+/-- Hypotheses of `spliceCore_refines` for a splice from `(0,1)` to `(2,1)` (multi-block path) with a
+fresh token. -/
+example : (0 : Nat) < demoStore.blocks.length ∧ (2 : Nat) < demoStore.blocks.length := by decide
+example : (1 : Nat) ≤ (demoStore.blocks[0]'(by decide)).toks.length ∧
+    (1 : Nat) ≤ (demoStore.blocks[2]'(by decide)).toks.length := by decide
+example : Fresh demoStore [newTok] := newTok_fresh
+
+/-- The conclusion on that instance, and the model evaluated directly agrees with it. -/
+example : ∃ out, spliceCore c2 demoStore [newTok] (0, 1) (2, 1) = .ok out ∧ SInv out.store ∧
+    out.store.cores = [(1, ['a', 'b']), (9, ['x', '\n', 'y']), (6, ['f']), (7, ['g'])] := by
+  obtain ⟨out, h1, h2, _, h4, _⟩ := spliceCore_refines c2_wf demo_inv.sinv demo_inv.cinv
+    (si := 0) (sj := 1) (ei := 2) (ej := 1) (by decide) (by decide) (by decide) (by decide)
+    (Or.inl (by decide)) newTok_fresh
+  exact ⟨out, h1, h2, by rw [h4]; decide⟩
+
+/-- The side condition of `spliceCore_refines` cannot be weakened to flat order: `(1,0)` and `(0,2)`
+are the same flat index 2 of `demoStore`, yet `_splice` does not act as the (empty) list splice. -/
+theorem splice_needs_lex_order :
+    flatIdx demoStore.blocks 1 0 = flatIdx demoStore.blocks 0 2 ∧
+    spliceCore c2 demoStore [] (1, 0) (0, 2) = .error "IndexError" := by
+  constructor
+  · decide
+  · rfl
+
+/-- Hypotheses of the public mutators: `splice([new], ref=2, del_end=5)`. -/
+example : (2 : Nat) ∈ demoStore.ids ∧ (5 : Nat) ∈ demoStore.ids ∧
+    demoStore.ids.idxOf 2 ≤ demoStore.ids.idxOf 5 := by decide
+
+/-- A well-formed three-step history on the plain list. -/
+example : WFHist [Op.remove 2 (some 5), Op.insertAfter (some 1) [newTok], Op.updateText 9 ['z']]
+    (demoToks.map Tok.core) := by
+  refine ⟨?_, ?_, ?_, trivial⟩
+  · show (2 ∈ _ ∧ _ ∧ _); decide
+  · show (FreshFor _ _ ∧ _); exact ⟨⟨⟨by decide, by decide, by decide⟩, by decide⟩, by decide⟩
+  · show (9 ∈ _); decide
+
+/-- A foreign token (handle of store 2) is refused by store 1. -/
+example : spliceCore c2 demoStore [{ newTok with h := some ⟨2, 1, 0⟩ }] (0, 0) (0, 0)
+    = .error "ValueError:already-in-store" :=
+  spliceCore_rejects_foreign _ _ _ _ _
+    (by intro t ht; simp only [List.mem_singleton] at ht; subst ht; exact Or.inr ⟨_, rfl, by decide⟩)
+    ⟨_, List.mem_singleton.2 rfl, _, rfl, by decide⟩
+
 end Autobean.C07
